@@ -59,6 +59,30 @@ func Corpus() []CorpusCase {
 			Req:   []*Tmsg{{Fields: []*Property{prop("fooId", key("id62"))}}},
 			Reply: []*Tmsg{{Fields: []*Property{prop("name", str("string"))}}}}},
 		&Element{Kind: "topic", Topic: &Topic{Kind: "upsert", Name: "Qux", Msgs: []*Tmsg{{Name: sp("UpsertFoo"), Fields: []*Property{prop("fooId", key("id62"))}}}}}))
+	// seeded C02-G class, deterministic: a path parameter in the service's basePath and methods whose own httpPath has none
+	// (":fooId" of the base path must become "{foo_id}" in every method's rule)
+	add("basepath-parameter-only", "foo.v1", file(foo, "a",
+		&Element{Kind: "service", Service: &Service{Name: "Foo", Base: sp("/foo/v1/:fooId"), Methods: []*Method{
+			{Name: "Summary", Verb: "GET", Path: "/summary", Request: []*Property{prop("fooId", str("string"))},
+				HasResp: true, Response: []*Property{prop("name", str("string"))}},
+			{Name: "Archive", Verb: "POST", Path: "archive", Request: []*Property{prop("fooId", key("id62")), prop("why", str("string"))}},
+			{Name: "Part", Verb: "GET", Path: "/part/:partId", Request: []*Property{prop("fooId", str("string")), prop("partId", str("string"))},
+				HasResp: true, Response: []*Property{prop("name", str("string"))}}}}}))
+	// seeded C02-H class, deterministic: the same imported (package-qualified) type referred to from the main file, the
+	// .service file and the .topic file of ONE source (each output file needs the import of its own), in both orders
+	for k, order := range [][]int{{0, 1, 2}, {2, 1, 0}, {1, 0, 2}} {
+		money := file([]string{"money", "v1"}, "types", object("Amount", prop("units", str("string"))))
+		els := []*Element{
+			object("Invoice", prop("total", objRef("money", "Amount"))),
+			{Kind: "service", Service: &Service{Name: "Pay", Base: sp("/pay/v1"), Methods: []*Method{{
+				Name: "Charge", Verb: "POST", Path: "/charge", Request: []*Property{prop("amount", objRef("money", "Amount"))},
+				HasResp: true, Response: []*Property{prop("charged", objRef("money.v1", "Amount"))}}}}},
+			{Kind: "topic", Topic: &Topic{Kind: "publish", Name: "Paid", Msgs: []*Tmsg{{Name: sp("Paid"), Fields: []*Property{prop("amount", objRef("money", "Amount"))}}}}},
+		}
+		user := &File{Dir: []string{"shop", "v1"}, Base: "a", Imports: []*Import{{Path: "money.v1"}},
+			Elements: []*Element{els[order[0]], els[order[1]], els[order[2]]}}
+		add(fmt.Sprintf("imported-type-in-three-output-files-%d", k), "shop.v1", money, user)
+	}
 	// defect: inline type named like its enclosing message (link error)
 	add("inline-named-like-parent", "foo.v1", file(foo, "a",
 		object("Foo", prop("foo", obj(prop("y", str("string")))))))
@@ -247,7 +271,19 @@ func EditCorpus() []EditPair {
 		}
 		return &Bundle{Files: []*File{file(foo, "a", &Element{Kind: "topic", Topic: t})}}
 	}
+	// seeded C13-H class, deterministic: a field with an inline enum (named after the field: Order.Status), then a
+	// top-level enum of that bare name appended to the file - the existing field must keep the nested type
+	order := func(extra ...*Element) *Bundle {
+		els := []*Element{object("Order", prop("status", &Field{Kind: "enuminline", Enum: &Enum{Opts: []string{"OPEN", "PAID"}}}),
+			prop("lines", &Field{Kind: "array", Item: obj(prop("kind", &Field{Kind: "enuminline", Enum: &Enum{Opts: []string{"A", "B"}}}))}))}
+		return &Bundle{Files: []*File{file(foo, "a", append(els, extra...)...)}}
+	}
+	statusEl := &Element{Kind: "enum", N: &Nested{Kind: "enum", Name: "Status", Enum: &Enum{Name: "Status", Opts: []string{"X", "Y"}}}}
+	kindEl := &Element{Kind: "enum", N: &Nested{Kind: "enum", Name: "Kind", Enum: &Enum{Name: "Kind", Opts: []string{"P", "Q"}}}}
 	return []EditPair{
+		{order(), order(statusEl, kindEl), "foo.v1", []EditRec{
+			{"decl", "foo/v1/a.j5s", "enum Status (bare name of an inline enum)", "EAppendDecl 0 " + statusEl.Coq(), ""},
+			{"decl", "foo/v1/a.j5s", "enum Kind (bare name of a deep inline enum)", "EAppendDecl 0 " + kindEl.Coq(), ""}}, false},
 		{mk(), plain, "foo.v1", []EditRec{{"field", "foo/v1/a.j5s:Foo", "age scalar", "EAppendField 0 0 " + age.Coq(), ""},
 			{"option", "foo/v1/a.j5s:Status", "INACTIVE", "EAppendOption 0 1 " + S("INACTIVE"), ""}}, false},
 		// defect: the appended inline type Foo.Foo captures the relative name Foo.X of the existing field
